@@ -35,6 +35,9 @@ THEOREMS = [
     "PyTrie.Props.NonVacuity.bt_allStored",
     "PyTrie.Props.NonVacuity.bt_ncOp",
     "PyTrie.Props.NonVacuity.bt_ncOp2",
+    "PyTrie.Props.Raw.bin_history",
+    "PyTrie.Props.Raw.bin_history_tree",
+    "PyTrie.Props.Raw.bin_history_get",
 ]
 RULE = ("histories of set / delete / delete_subtrie (method and dict syntax) over fixed-length and variable-length key pools "
         "with prefix-related keys, keys differing at every bit position of a byte, repeated values; after every call the outcome "
